@@ -6,9 +6,13 @@
 //   independent implementation of XEP-0115 §5.1 (octet collation, written from the XEP text, working on what the object
 //   puts on the wire) is compared with the real code and with the Lean spec (`spec` lines); permutation invariance,
 //   duplicate-feature invariance and "changes when altered" are evaluated directly on the real code.
-// Part 2 (correspondence + oracle): a real QXmppClient with QXmppDiscoveryManager, bundled managers and generated
-//   extensions: the <c ver=…/> of the emitted presence against the hash recomputed (independent implementation) from
-//   the XML of the real reply to a disco#info get for node#ver.
+// Part 2 (correspondence + oracle): a real QXmppClient on a loopback connection with QXmppDiscoveryManager, bundled managers and generated
+//   extensions.  First publication, then a history: reconfigurations through the API, and every site that emits a presence —
+//   setClientPresence / connectToServer + session start (caps recomputed), and the sites that send the STORED presence: session start
+//   after an automatic reconnection or after a reconfiguration, QXmppMucRoom::join, disconnectFromServer.  After EVERY emitted presence
+//   its <c node ver> is compared with the XEP-0115 hash (independent implementation) of the XML the client answers to disco#info at that
+//   moment; node#ver and the plain node must be answered.  The Lean model (stored presence + emission sites) is fed the same history.
+//   Out of scope: verifying the caps of OTHER entities (no such code in qxmpp), XEP-0390 (not emitted).
 //
 // `class TestClient` is declared a friend by QXmppClient / QXmppOutgoingClient / QXmppStanza.
 #include "common.h"
@@ -677,9 +681,9 @@ public:
         return true;
     }
     void inject(const QString &xml) { d->stream->handlePacketReceived(domOf(xml)); }
-    // connectToServer(config, presence) driven offline: drop the connection, let the client connect to the loopback server again,
-    // then start the session the way the stream does after authentication/binding (initial presence is sent from _q_streamConnected)
-    bool reconnectWith(const QXmppPresence &p, quint16 port)
+    // connectToServer(config, presence) driven offline: drop the connection, let the client connect to the loopback server again
+    // (caps are recomputed and stored here) ...
+    bool connectOnly(const QXmppPresence &p, quint16 port)
     {
         d->stream->socket()->abort();
         QCoreApplication::processEvents();
@@ -689,9 +693,27 @@ public:
         connectToServer(cfg, p);
         if (!d->stream->socket()->waitForConnected(2000)) return false;
         QCoreApplication::processEvents();
+        return true;
+    }
+    // ... then start the session the way the stream does after authentication/binding: the initial presence is the STORED one,
+    // sent from _q_streamConnected
+    void startSession()
+    {
         d->stream->d->sessionStarted = true;
         d->stream->d->isAuthenticated = true;
         _q_streamConnected(QXmpp::Private::SessionBegin {});
+    }
+    // connection loss followed by the automatic reconnection (_q_reconnect -> connectToHost with the stored configuration) and a new session
+    bool restartSession(quint16 port)
+    {
+        d->stream->socket()->abort();
+        QCoreApplication::processEvents();
+        configuration().setHost(QL("127.0.0.1"));
+        configuration().setPort(port);
+        _q_reconnect();
+        if (!d->stream->socket()->waitForConnected(2000)) return false;
+        QCoreApplication::processEvents();
+        startSession();
         return true;
     }
     static QStringList baseFeatures() { return QXmppClientPrivate::discoveryFeatures(); }
@@ -870,21 +892,27 @@ static void runClientCase(Rng &rng, Gen &g, long long n)
         if (!err) { QXmppDiscoveryIq p3; p3.parse(r3); obs = p3.verificationString().toBase64().toStdString(); stat("foreign_node_answered_by_prefix_rule"); }
         corr(capsOp(other), ver.toStdString() + "|" + obs);
     }
-    // ---- history on the same client: reconfigure in each of the ways, publish again (fresh presence / presence derived from
-    //      clientPresence(), via setClientPresence / via connectToServer), and after EVERY emitted presence compare its ver with the
-    //      hash of the real answer for node#ver.  Model: every emitted presence carries the hash of capabilities() at emission time.
+    std::vector<std::pair<std::string, std::string>> pendingQueries;
+    // ---- history on the same client.  The client keeps a STORED presence; setClientPresence / connectToServer recompute its caps,
+    //      the other emission sites (session start incl. automatic reconnection, MUC join, disconnectFromServer) send the stored copy.
+    //      After EVERY emitted presence its <c node ver> is compared with the independently computed XEP-0115 hash of what the client
+    //      answers to disco#info at that moment.
     corr("config " + hexOf(disco->clientCapabilitiesNode()) + " " + cfgTail(), "ok");
-    std::string history = "publish(fresh,setClientPresence)";
+    corr("publish fresh", hexOf(advNode) + "|" + ver.toStdString());   // the publication checked above, for the model's stored presence
+    std::string history = "setClientPresence(fresh)";
     QList<GenExtension *> added;
-    int steps = n < 2 ? 4 : 2 + int(rng.below(4));
+    bool dirty = false;   // reconfigured since the caps of the stored presence were last recomputed
     QString lastQnode = qnode; std::string lastXep = xep;
-    for (int k = 0; k < steps; k++) {
-        // reconfigure
-        int way = n < 2 ? (n == 0 ? k : 3 - k) : int(rng.below(8));
+    auto acceptPending = [&]() {
+        if (!g_server->hasPendingConnections()) g_server->waitForNewConnection(1000);
+        while (g_server->hasPendingConnections()) g_server->nextPendingConnection()->setParent(&c);
+    };
+    auto lastPresence = [&]() { QString px; for (auto &x : c.sent) if (x.startsWith(QL("<presence"))) px = x; return px; };
+    auto reconfigure = [&](int way, int k) {
         switch (way) {
         case 0: disco->setClientName(disco->clientName() + QL("+")); history += "; setClientName"; break;
         case 1: {
-            auto *e = new GenExtension; e->feats << QL("urn:step:%1").arg(k);
+            auto *e = new GenExtension; e->feats << QL("urn:step:%1:%2").arg(k).arg(added.size());
             if (rng.coin()) e->ids = makeIdentities({ g.identity() });
             c.addExtension(e); added << e; history += "; addExtension";
             break;
@@ -899,91 +927,136 @@ static void runClientCase(Rng &rng, Gen &g, long long n)
             else { c.addNewExtension<QXmppUserTuneManager>(); history += "; addExtension(bundled)"; }
             break;
         case 5: { QString nn = n < 2 ? (k % 2 ? QL("urn:x#a#b") : QL("https://example.org/c#")) : genNode(rng, g, true); disco->setClientCapabilitiesNode(nn); history += "; setClientCapabilitiesNode(" + nn.toStdString() + ")"; break; }
-        case 6: if (!c.findExtension<QXmppVersionManager>()) { c.addNewExtension<QXmppVersionManager>(); history += "; addExtension(version)"; } else history += "; (no change)"; break;
-        default: history += "; (no change)"; break;
+        case 6: if (!c.findExtension<QXmppVersionManager>()) { c.addNewExtension<QXmppVersionManager>(); history += "; addExtension(version)"; } else { history += "; (no change)"; return; } break;
+        default: history += "; (no change)"; return;
         }
+        dirty = true;
         corr("config " + hexOf(disco->clientCapabilitiesNode()) + " " + cfgTail(), "ok");
-        // observation only (no presence published yet, so nothing is claimed): the old node#ver is answered with the new info set
-        if (way < 7 && !lastQnode.isNull()) {
+    };
+    // judge one emitted presence; `recomputed`: the site is one that recomputes the caps (setClientPresence, or a session start right
+    // after connectToServer without reconfiguration in between).  Returns the observation for the correspondence line.
+    auto judge = [&](const QString &px, const std::string &site, bool recomputed) -> std::string {
+        std::string rp = "client-case " + std::to_string(n) + " history: " + history;
+        if (px.isEmpty()) { oracleFail("C20:no-presence-emitted", rp); return "none"; }
+        rp += " presence=" + px.toStdString();
+        QDomElement ce;
+        { auto pd = domOf(px); for (auto e = pd.firstChildElement(QL("c")); !e.isNull(); e = e.nextSiblingElement(QL("c"))) if (e.namespaceURI() == QL("http://jabber.org/protocol/caps")) ce = e; }
+        QString v2 = ce.attribute(QL("ver")), n2 = ce.attribute(QL("node"));
+        std::string obs = ce.isNull() ? std::string("no-caps") : hexOf(n2) + "|" + v2.toStdString();
+        // what the client answers at this moment (query without node), hashed independently
+        QDomElement r0; QString x0 = ask(QString(), r0);
+        if (x0.isEmpty() || r0.attribute(QL("type")) != QL("result")) { oracleFail("C20:no-result-for-plain-query", rp); return obs; }
+        Wire w0 = wireFromQuery(r0.firstChildElement(QL("query")));
+        std::string xep0;
+        if (!xepVer(w0, Quirks(), xep0)) { oracleFail("C20:reply-outside-xep-domain", rp); return obs; }
+        QString curNode = disco->clientCapabilitiesNode();
+        stat("client_presences_judged:" + site);
+        bool ok = curNode.isEmpty() ? ce.isNull()
+                                    : (!ce.isNull() && n2 == curNode && ce.attribute(QL("hash")) == QL("sha-1") && v2.toStdString() == xep0);
+        if (!ok) {
+            rp += " answer-now=" + x0.toStdString();
+            std::vector<std::string> keys;
+            if (!ce.isNull() && n2 == curNode) keys = explain(w0, v2.toStdString());
+            if (!keys.empty()) emitFailKeys(keys, "", rp);
+            else if (dirty && !recomputed) { oracleFail("C20:stale-ver:" + site, rp); stat("stale_caps_emitted:" + site); }
+            else if (!ce.isNull() && n2 == curNode && ce.attribute(QL("hash")) == QL("sha-1")) oracleFail("C20:advertised-ne-answered:after-republish", site + " ; " + rp);
+            else oracleFail("C20:caps-element-attributes", site + " ; " + rp);
+            return obs;
+        }
+        oraclePass()++;
+        if (ce.isNull()) { stat("empty_node_nothing_advertised"); lastQnode = QString(); return obs; }
+        // the advertised node#ver, the plain node: answered, never an error, the same info set
+        QString q2 = n2 + QL("#") + v2;
+        for (const QString &pq : { q2, n2 }) {
+            QDomElement r5; QString x5 = ask(pq, r5);
+            if (x5.isEmpty() || r5.attribute(QL("type")) != QL("result")) { oracleFail("C20:no-result-for-advertised-node", "query " + pq.toStdString() + " ; " + rp); continue; }
+            if (r5.firstChildElement(QL("query")).attribute(QL("node")) != pq) oracleFail("C20:reply-node-differs", rp); else oraclePass()++;
+            Wire w5 = wireFromQuery(r5.firstChildElement(QL("query")));
+            if (w5 == w0) oraclePass()++; else oracleFail("C20:plain-query-answers-differently", rp);
+            { std::set<std::string> fs; std::string dup; for (auto &f : w5.feats) if (!fs.insert(f).second) dup = f;
+              if (!dup.empty()) oracleFail("C20:reply-repeats-feature", "repeated: " + dup + " ; " + rp); else oraclePass()++; }
+            QXmppDiscoveryIq p5; p5.parse(r5);
+            pendingQueries.push_back({ "query " + hexOf(pq), p5.verificationString().toBase64().toStdString() });
+        }
+        { QXmppDiscoveryIq p0; p0.parse(r0); pendingQueries.push_back({ "query -", p0.verificationString().toBase64().toStdString() }); }
+        // an extension of the own node / a foreign node: correspondence with the prefix rule
+        for (const QString &other : { n2 + QL("x#") + v2, QL("urn:other#") + v2 }) {
+            QDomElement r6; QString x6 = ask(other, r6);
+            if (x6.isEmpty()) continue;
+            std::string o = "not-found";
+            if (r6.attribute(QL("type")) != QL("error")) { QXmppDiscoveryIq p6; p6.parse(r6); o = p6.verificationString().toBase64().toStdString(); stat("foreign_node_answered_by_prefix_rule"); }
+            pendingQueries.push_back({ "query " + hexOf(other), o });
+        }
+        if (n2.contains(QLatin1Char('#'))) stat("client_presences_node_with_hash_sign");
+        lastQnode = q2; lastXep = xep0;
+        return obs;
+    };
+    auto flushQueries = [&]() { for (auto &q : pendingQueries) corr(q.first, q.second); pendingQueries.clear(); };
+
+    int steps = n < 2 ? 4 : 2 + int(rng.below(4));
+    for (int k = 0; k < steps; k++) {
+        reconfigure(n < 2 ? (n == 0 ? k : 3 - k) : int(rng.below(8)), k);
+        // observation only (no presence emitted yet, so nothing is claimed): the old node#ver is answered with the new info set
+        if (dirty && !lastQnode.isNull()) {
             QDomElement r4; QString x4 = ask(lastQnode, r4);
             if (!x4.isEmpty() && r4.attribute(QL("type")) == QL("result")) {
                 std::string x; Wire w4 = wireFromQuery(r4.firstChildElement(QL("query")));
-                if (xepVer(w4, Quirks(), x) && x != lastXep) stat("stale_ver_answered_with_new_info_before_republication");
+                if (xepVer(w4, Quirks(), x) && x != lastXep) stat("stale_ver_answered_with_new_info_before_any_new_presence");
             }
         }
-        // publish again
+        // sites that send the STORED presence: automatic reconnection + session start, MUC join
+        int em = n < 2 ? (k == 0 ? 0 : k == 1 ? 1 : 2) : int(rng.below(5));
+        if (em == 0) {
+            c.sent.clear();
+            if (!c.restartSession(g_server->serverPort())) { fprintf(stderr, "loopback reconnect failed\n"); exit(3); }
+            acceptPending();
+            history += "; connection lost, automatic reconnection, session start";
+            corr("emit session", judge(lastPresence(), "session-start", false)); flushQueries();
+        } else if (em == 1) {
+            auto *muc = c.findExtension<QXmppMucManager>();
+            if (!muc) { muc = c.addNewExtension<QXmppMucManager>(); history += "; addExtension(QXmppMucManager)"; dirty = true; corr("config " + hexOf(disco->clientCapabilitiesNode()) + " " + cfgTail(), "ok"); }
+            auto *room = muc->addRoom(QL("room%1@conference.example.org").arg(k));
+            room->setNickName(QL("nick"));
+            c.sent.clear();
+            room->join();
+            history += "; QXmppMucRoom::join";
+            corr("emit muc", judge(lastPresence(), "muc-join", false)); flushQueries();
+        }
+        // publish again: setClientPresence / connectToServer, with a fresh presence or one derived from clientPresence()
         int how = n < 2 ? (k + int(n)) % 4 : int(rng.below(4));
         bool derived = how == 1 || how == 2;
         QXmppPresence p(QXmppPresence::Available);
         if (derived) { p = c.clientPresence(); p.setStatusText(QL("status %1").arg(k)); if (rng.coin()) p.setPriority(k + 1); }
         else if (rng.coin()) p.setStatusText(QL("new %1").arg(k));
         c.sent.clear();
+        stat(std::string("republish:") + (derived ? "derived" : "fresh") + (how >= 2 ? ":connectToServer" : ":setClientPresence"));
         if (how >= 2) {
-            if (!c.reconnectWith(p, g_server->serverPort())) { fprintf(stderr, "loopback reconnect failed\n"); exit(3); }
-            if (!g_server->hasPendingConnections()) g_server->waitForNewConnection(1000);
-            while (g_server->hasPendingConnections()) g_server->nextPendingConnection()->setParent(&c);
-            history += derived ? "; publish(derived from clientPresence(),connectToServer)" : "; publish(fresh,connectToServer)";
+            if (!c.connectOnly(p, g_server->serverPort())) { fprintf(stderr, "loopback reconnect failed\n"); exit(3); }
+            acceptPending();
+            dirty = false;
+            history += derived ? "; connectToServer(derived from clientPresence())" : "; connectToServer(fresh)";
+            corr(std::string("connect ") + (derived ? "derived" : "fresh"), "-");
+            // the application may still change its extensions / identity before the session is established
+            if (n < 2 ? (n == 1 && k == 1) : rng.below(3) == 0) reconfigure(n < 2 ? 1 : int(rng.below(6)), k + 100);
+            c.sent.clear();
+            c.startSession();
+            history += "; session start";
+            corr("emit session", judge(lastPresence(), "session-start", !dirty)); flushQueries();
         } else {
             c.setClientPresence(p);
-            history += derived ? "; publish(derived from clientPresence(),setClientPresence)" : "; publish(fresh,setClientPresence)";
-        }
-        stat(std::string("republish:") + (derived ? "derived" : "fresh") + (how >= 2 ? ":connectToServer" : ":setClientPresence"));
-        QString px;
-        for (auto &x : c.sent) if (x.startsWith(QL("<presence"))) px = x;
-        std::string rp = "client-case " + std::to_string(n) + " history: " + history;
-        if (px.isEmpty()) { oracleFail("C20:no-presence-emitted", rp); return; }
-        QDomElement ce;
-        { auto pd = domOf(px); for (auto e = pd.firstChildElement(QL("c")); !e.isNull(); e = e.nextSiblingElement(QL("c"))) if (e.namespaceURI() == QL("http://jabber.org/protocol/caps")) ce = e; }
-        if (disco->clientCapabilitiesNode().isEmpty()) {
-            // empty capabilities node: QXmppPresence writes no <c/>, nothing is advertised; the plain query must still be answered
-            if (!ce.isNull()) oracleFail("C20:caps-element-attributes", rp + " " + px.toStdString()); else oraclePass()++;
-            corr(std::string("publish ") + (derived ? "derived" : "fresh"), "no-caps");
-            QDomElement r0; QString x0 = ask(QString(), r0);
-            if (x0.isEmpty() || r0.attribute(QL("type")) != QL("result")) oracleFail("C20:no-result-for-plain-query", rp);
-            else { oraclePass()++; QXmppDiscoveryIq p0; p0.parse(r0); corr("query -", p0.verificationString().toBase64().toStdString()); }
-            stat("empty_node_nothing_advertised");
-            lastQnode = QString();
-            continue;
-        }
-        if (ce.isNull()) { oracleFail("C20:presence-without-caps", rp + " " + px.toStdString()); return; }
-        QString v2 = ce.attribute(QL("ver")), n2 = ce.attribute(QL("node"));
-        rp += " presence=" + px.toStdString();
-        if (ce.attribute(QL("hash")) != QL("sha-1") || n2 != disco->clientCapabilitiesNode()) oracleFail("C20:caps-element-attributes", rp); else oraclePass()++;
-        corr(std::string("publish ") + (derived ? "derived" : "fresh"), v2.toStdString());
-        QString q2 = n2 + QL("#") + v2;
-        QDomElement r2; QString x2 = ask(q2, r2);
-        rp += " reply=" + x2.toStdString();
-        if (x2.isEmpty() || r2.attribute(QL("type")) != QL("result")) { oracleFail("C20:no-result-for-advertised-node", rp); return; }
-        if (r2.firstChildElement(QL("query")).attribute(QL("node")) != q2) oracleFail("C20:reply-node-differs", rp); else oraclePass()++;
-        Wire w2 = wireFromQuery(r2.firstChildElement(QL("query")));
-        std::string xep2;
-        if (!xepVer(w2, Quirks(), xep2)) { oracleFail("C20:reply-outside-xep-domain", rp); return; }
-        // THE property, for the presence just emitted
-        if (xep2 == v2.toStdString()) oraclePass()++;
-        else emitFailKeys(explain(w2, v2.toStdString()), "C20:advertised-ne-answered:after-republish", rp);
-        { std::set<std::string> fs; std::string dup; for (auto &f : w2.feats) if (!fs.insert(f).second) dup = f;
-          if (!dup.empty()) oracleFail("C20:reply-repeats-feature", "repeated: " + dup + " ; " + rp); else oraclePass()++; }
-        QXmppDiscoveryIq p2; p2.parse(r2);
-        corr("query " + hexOf(q2), p2.verificationString().toBase64().toStdString());
-        // the advertised node without "#ver" and no node at all: same info set, never an error
-        for (const QString &pq : { n2, QString() }) {
-            QDomElement r5; QString x5 = ask(pq, r5);
-            if (x5.isEmpty() || r5.attribute(QL("type")) != QL("result")) { oracleFail(pq.isNull() ? "C20:no-result-for-plain-query" : "C20:no-result-for-advertised-node", "plain node ; " + rp); continue; }
-            if (wireFromQuery(r5.firstChildElement(QL("query"))) == w2) oraclePass()++; else oracleFail("C20:plain-query-answers-differently", rp);
-            QXmppDiscoveryIq p5; p5.parse(r5);
-            corr("query " + hexOf(pq), p5.verificationString().toBase64().toStdString());
-        }
-        // an extension of the own node / a foreign node: correspondence with the prefix rule
-        for (const QString &other : { n2 + QL("x#") + v2, QL("urn:other#") + v2 }) {
-            QDomElement r6; QString x6 = ask(other, r6);
-            if (x6.isEmpty()) continue;
-            std::string obs = "not-found";
-            if (r6.attribute(QL("type")) != QL("error")) { QXmppDiscoveryIq p6; p6.parse(r6); obs = p6.verificationString().toBase64().toStdString(); stat("foreign_node_answered_by_prefix_rule"); }
-            corr("query " + hexOf(other), obs);
+            dirty = false;
+            history += derived ? "; setClientPresence(derived from clientPresence())" : "; setClientPresence(fresh)";
+            corr(std::string("publish ") + (derived ? "derived" : "fresh"), judge(lastPresence(), "setClientPresence", true)); flushQueries();
         }
         stat("client_republications");
-        if (n2.contains(QLatin1Char('#'))) stat("client_republications_node_with_hash_sign");
-        lastQnode = q2; lastXep = xep2;
+    }
+    // leaving: disconnectFromServer sends the stored presence as unavailable
+    if (n < 2 || rng.coin()) {
+        if (n < 2 || rng.coin()) reconfigure(n < 2 ? 0 : int(rng.below(6)), 200);
+        c.sent.clear();
+        c.disconnectFromServer();
+        history += "; disconnectFromServer";
+        corr("emit disconnect", judge(lastPresence(), "disconnect", false)); flushQueries();
     }
 }
 
